@@ -1,17 +1,10 @@
 #!/bin/sh
-# evaluates behaviour-preserving patches: every relevant check must exit 0
-run() { n=$1; shift; cd /repo; git diff --quiet || { echo "repo dirty"; exit 9; }; git apply /verif/neutral/$n/patch.diff || { echo "$n PATCH FAILED"; return; }
-  for p in "$@"; do out=$(/verif/run.py $p 2>&1); rc=$?; echo "$n $p rc=$rc $(echo "$out" | tail -1 | cut -c1-150)"; [ $rc -ne 0 ] && echo "$out" | grep "^VIOLATION\|^HARNESS\|^INCONCLUSIVE\|obligation" | head -6 | cut -c1-330; done
-  git checkout -q -- .; }
-run n1 C08 C14 C07 C05 C12 C20
-run n2 C08 C14 C13 C07 C10 C11 C20
-run n3 C13 C18 C19 C06 C20
-run n4 C13 C18 C19 C06 C20
-run n5 C07 C05 C12 C20
-run n6 C13 C07 C17 C05 C12 C20
-run n7 C05 C12 C20
-run n8 C13 C05 C12 C20
-run n9 C01 C02 C03 C04 C09 C16 C20
-run n10 C11 C01 C02 C04 C20
-run n11 C15 C16 C10 C20
-run n12 C10 C20
+# usage: tools_neutral_eval.sh <scratch worktree> <dir with n*/patch.diff> -- every check on every behaviour-preserving patch (expects exit 0)
+wt=$1; dir=$2
+for d in $dir/n*/; do n=$(basename $d)
+  cd $wt; git checkout -q -- .; git apply $d/patch.diff || { echo "$n PATCH FAILED"; continue; }
+  for p in C01 C02 C03 C04 C05 C06 C07 C08 C09 C10 C11 C12 C13 C14 C15 C16 C17 C18 C19 C20; do
+    out=$(VERIF_REPO=$wt /verif/run.py $p 2>&1); rc=$?; [ $rc -ne 0 ] && { echo "$n $p rc=$rc $(echo "$out" | tail -1 | cut -c1-150)"; echo "$out" | grep "^VIOLATION\|^HARNESS\|^INCONCLUSIVE" | head -4 | cut -c1-300; }
+  done; echo "$n done"
+  git checkout -q -- .
+done
